@@ -313,6 +313,9 @@ func applyOps(vc *vlib.VCluster, ops []kop, phase string, rec *krecord, sys *vli
 		case "delete":
 			if cur, ok := vc.Current(o.Ns + "/" + o.Name); ok {
 				vc.Delete(o.Ns, o.Name)
+				if h := vc.History[o.Ns+"/"+o.Name]; len(h) > 0 {
+					rec.PhaseOf[h[len(h)-1].Gen] = phase
+				}
 				rec.Trace = append(rec.Trace, fmt.Sprintf("[%s] delete %s/%s (was gen=%d)", phase, o.Ns, o.Name, cur.Gen))
 			}
 		case "ns-relabel":
